@@ -202,7 +202,10 @@ func GenC12(rng *rand.Rand, thorough bool, emit func(*Sx)) {
 			for _, maxRcpt := range []int{0, 2} {
 				for tlsState := 0; tlsState < 3; tlsState++ {
 					for _, insecure := range []bool{false, true} {
-						for _, auth := range []bool{false, true} {
+						// authMode 2: the session implements AuthSession but offers NO mechanism (an empty, non-nil
+						// list - a backend that filters its mechanisms by connection state): no AUTH line
+						for authMode := 0; authMode < 3; authMode++ {
+							auth := authMode == 1
 							for _, lmtp := range []bool{false, true} {
 								idx++
 								if !thorough && idx%4 != 0 && !(bits == 0 || bits == 31) {
@@ -222,8 +225,19 @@ func GenC12(rng *rand.Rand, thorough bool, emit func(*Sx)) {
 								if auth {
 									cfg.HasAuth, cfg.Auth = true, []string{"PLAIN", "LOGIN"}
 								}
+								if authMode == 2 {
+									if !thorough && (bits+tlsState)%4 != 0 {
+										continue
+									}
+									cfg.HasAuth, cfg.Auth = true, []string{}
+								}
 								tls := cfg.ImplicitTLS
 								f := newF(cfg)
+								if authMode == 2 {
+									// (such a backend refuses every mechanism, and says so)
+									no := AuthPlan{Start: BSmtp(504, [3]int{5, 5, 4}, "Unsupported authentication mechanism")}
+									f.script.Auth = []AuthPlan{no, no}
+								}
 								f.hello()
 								// every third configuration: a greeting that is REFUSED follows the accepted one - it
 								// changes nothing about what was advertised and is honoured
